@@ -1,4 +1,5 @@
 import Orca.Lemmas.SemSim
+import Orca.Lemmas.SemErase
 /-!
 Semantic-after on **branches**: the flag scheme of the code (a fresh i32 local per annotated branch, `1` in front of the
 branch, `0` behind it, `local.get flag; if <probes> end` behind the `end` of the target construct; the flag is never
@@ -1417,5 +1418,10 @@ theorem branch_lowerF_sim (F : List Nat) (Fn : Func) (hsc : scopedL F Fn.body = 
       obtain ⟨r, rfl, hfer⟩ := hrel.trap_inv
       simpa [finish, FOutRel, leaveBlock, Out.onNormal] using hfer
     | stuck w => simp at oko
+
+theorem FOutRel.abs {F : List Nat} {a b : FOut} (h : FOutRel F a b) : b.abs = a.abs := by
+  cases a <;> cases b <;> simp only [FOutRel] at h
+  · obtain ⟨rfl, h⟩ := h; simp [FOut.abs, h.globals, h.mem]
+  · simp [FOut.abs, h.globals, h.mem]
 
 end Orca.Sem
